@@ -117,6 +117,7 @@ class KeywordTask:
         obls = list(ctx.obligations)
         allowed = {"CalleeExc"} | ({"UnknownType"} if d == 3 else set())
         nf = ns = 0
+        shape_failures = []
         for s, ctl in outs:
             if ctl[0] == "raise":
                 exc = ctl[1]
@@ -137,6 +138,22 @@ class KeywordTask:
                                      note="empty(result) <=> K_%s" % k + (" on C09's exact sub-domain" if dom is not None else ""))
                 ob.alt_goal = strengthen_iff(emp, spec)
                 obls.append(ob)
+                # C05/C06: the result has the expected structure (one error per violation; the path
+                # and schema-path elements handed to descend are those of the element descended into)
+                from contracts import structure
+                from pyvc import seqmatch
+                exp = structure.expected(o, d, k, value, instance, schema, st.ghost["scope"])
+                if exp is not None:
+                    sname = "%s/F/structure#%d" % (self.name, nf)
+                    try:
+                        facts = seqmatch.match(cat(*s.out), exp, pcx)
+                        ob2 = core.Obligation(sname, "F", pcx, z3.And(facts) if facts else z3.BoolVal(True),
+                                              note="result == expected comprehension over descend(...) / constructed errors (C05, C06)")
+                        ob2.facts = facts
+                        obls.append(ob2)
+                    except seqmatch.Mismatch as e:
+                        shape_failures.append({"name": sname, "kind": "F", "status": "failed", "solver": "seqmatch", "time_s": 0.0,
+                                               "note": "result structure differs from the expected one: %s" % e, "reason": str(e)})
         if nf == 0:
             raise RuntimeError("no normal path through %s" % self.name)
         for ob in obls:
@@ -151,6 +168,7 @@ class KeywordTask:
             if ob.kind == "F" and len(res["obligations"]) < 400:
                 rec["formula"] = str(z3.simplify(ob.goal))[:400]
             res["obligations"].append(rec)
+        res["obligations"].extend(shape_failures)
         res["feas_calls"] = ctx.feas_calls
         seen = {}
         for unit_key, cls, origin in ctx.safety:
@@ -162,11 +180,22 @@ class KeywordTask:
                                        "note": "%s from %s cannot occur (%d path(s))" % (cls, origin, n)})
         if any(o["status"] != "discharged" for o in res["obligations"]):
             # counterexample search on the real code (bounded, directed at this keyword)
-            from pyvc import driver
+            from pyvc import driver, frames
+            extra = []
             try:
-                res["search"] = driver.rt_call("pyvc.rt_kw", {"cmd": "search", "root": self.root, "draft": d, "keyword": k, "limit": 3}, self.root)
+                keys, _, _ = frames.schema_reads(repo, self.fkey, frames.param_names(unit.node)[3])
+                extra = sorted(keys - set(drafts.siblings(d, k)))
+            except Exception:      # noqa
+                pass
+            try:
+                res["search"] = driver.rt_call("pyvc.rt_kw", {"cmd": "search", "root": self.root, "draft": d, "keyword": k, "limit": 3, "extra_siblings": extra}, self.root)
             except Exception as e:      # noqa
                 res["search"] = {"error": str(e)[-500:], "failures": []}
+            if any(o["status"] != "discharged" and "/F/structure" in o["name"] for o in res["obligations"]):
+                try:
+                    res["search_errors"] = driver.rt_call("pyvc.rt_kw", {"cmd": "search", "mode": "errors", "root": self.root, "draft": d, "keyword": k, "limit": 3, "extra_siblings": extra}, self.root)
+                except Exception as e:      # noqa
+                    res["search_errors"] = {"error": str(e)[-500:], "failures": []}
 
 
 def strengthen_iff(emp, spec):
